@@ -20,14 +20,16 @@ EXTENDS Denote
 LeafId(e) == IF e.k \in {"member", "index"} THEN e.obj \o "." \o e.prop ELSE e.name
 IsProbe(e) == (e.k = "ident" /\ ~e.bound) \/ e.k \in {"call", "member", "index"}
 
-RECURSIVE AllLeaves(_), LeavesOfEntries(_, _), LeavesOfItems(_, _)
+RECURSIVE AllLeaves(_), LeavesOfEntries(_, _), LeavesOfCEntries(_, _), LeavesOfItems(_, _)
 AllLeaves(e) ==           \* every observable leaf of an expression, in evaluation order
   CASE IsProbe(e) -> <<LeafId(e)>>
     [] e.k = "objlit" -> LeavesOfEntries(e.es, 1)
+    [] e.k = "objlitc" -> LeavesOfCEntries(e.ces, 1)
     [] e.k = "arrlit" -> LeavesOfItems(e.xs, 1)
     [] e.k = "wrap" -> AllLeaves(e.e)
     [] OTHER -> <<>>          \* literals, bound identifiers, function expressions (bodies run later)
 LeavesOfEntries(es, i) == IF i > Len(es) THEN <<>> ELSE AllLeaves(es[i][2]) \o LeavesOfEntries(es, i + 1)
+LeavesOfCEntries(ces, i) == IF i > Len(ces) THEN <<>> ELSE AllLeaves(ces[i][1]) \o AllLeaves(ces[i][3]) \o LeavesOfCEntries(ces, i + 1)
 LeavesOfItems(xs, i) == IF i > Len(xs) THEN <<>> ELSE AllLeaves(xs[i]) \o LeavesOfItems(xs, i + 1)
 
 (* constrained leaves of a written expression: nothing for a bare identifier or literal *)
@@ -69,8 +71,8 @@ AttrOrder(attrs, hoist) ==
 RECURSIVE EagerOrder(_, _, _), KidsOrder(_, _, _, _)
 SingleRuntimeChild(el, o) ==       \* the identifier / call child that is decided at runtime
   LET ccs == SelectSeq(Coalesce(el.children), Contributes) IN
-  IF o.enableObjectSlots /\ Len(ccs) = 1 /\ ccs[1].k = "expr" /\ ccs[1].e.k \in {"ident", "call"}
-  THEN <<ccs[1].e>> ELSE <<>>
+  IF o.enableObjectSlots /\ Len(ccs) = 1 /\ ccs[1].k = "expr" /\ Peel(ccs[1].e).k \in {"ident", "call"}
+  THEN <<Peel(ccs[1].e)>> ELSE <<>>
 
 KidsOrder(cs, o, hoist, i) ==
   IF i > Len(cs) THEN <<>>
